@@ -100,6 +100,25 @@ def shouldExit (mode : Nat) (err : Option GoErr) : Bool × Option GoErr :=
     else if mode = Gen.rob_reader_ErrorHandlingReport then (false, some e)
     else (mode != Gen.rob_reader_ErrorHandlingRecover, none)
 
+
+/-- the error `NewReader`/`MakeReader` make up when the catalog has no usable `/Pages` -/
+def errNoPages : GoErr := .malformed (.other "no pages in PDF document catalog") []
+
+/-- The step after `DecodeCatalog` in `NewReader` (`seq = false`) and in `FileInfo.MakeReader`
+    (`seq = true`, after fix D32): `err` is the error of the decode, `hasPages` says whether
+    `r.meta.Catalog != nil && r.meta.Catalog.Pages != 0`.  Result: (the function returns now with a
+    nil `*Reader`, the error it returns, an error was appended to `r.Errors`). -/
+def catalogStep (seq : Bool) (mode : Nat) (err : Option GoErr) (hasPages : Bool) : Bool × Option GoErr × Bool :=
+  let (ex, rep) := shouldExit mode err
+  if ex then (true, err, false)
+  else if !hasPages then
+    if seq then
+      -- `if err == nil { err = &MalformedFileError{…} }; return nil, err`
+      (true, some (match err with | some e => e | none => errNoPages), rep.isSome)
+    else if mode = Gen.rob_reader_ErrorHandlingReport then (false, none, true)
+    else (true, some errNoPages, rep.isSome)
+  else (false, none, rep.isSome)
+
 /-! ## `sourceErrChecker` / `sourceAwareReader` under arbitrary filter layers -/
 
 /-- the raw reader `x.NewReader()` below the checker: answer of its `k`-th `Read(p)`, `len p = want` -/
